@@ -46,6 +46,24 @@ fn registry() -> Vec<CheckDef> {
         run: kvlib::c07::run,
         replay: kvlib::c07::replay,
         assumptions: &["oracle: DirExplainer (before listing as captured by the shim at opendir time / before snapshot, after snapshot) + the brute-force-validated clock-queue predicate of C08", "re-stamped files carrying identical new mtimes are accepted in any relative order", "tmpfs under /dev/shm, nanosecond timestamps"],
+    },
+    CheckDef {
+        id: "C17",
+        level: "exploration",
+        workers: 16,
+        rule: "proptest-generated directory populations: 0-9 key-named files (6 mtime slots, 3 read-mark states), 0-2 dot-prefixed application files, optional .git/ directory and nested/deep/ directory with content, 0-5 files directly in .kismet_temp with mtimes at limit-{1h,1s,1ns}, exactly the limit, limit+{1ns,1s,59min}, optional subdirectory inside .kismet_temp (own mtime and inner files across the same offsets, inner names colliding with top-level temp names); capacity 0..n+1; plain or 2-shard cache; maintenance forced through a set/put of a fresh key with the trigger scripted to fire under a frozen virtual clock; non-trivial = maintenance evicted AND (a dot file is present or a temp file lies within 1 s of the limit)",
+        run: kvlib::c17::run,
+        replay: kvlib::c17::replay,
+        assumptions: &["CLOCK_REALTIME is served from a frozen virtual clock by the shim so that the one-hour boundary is exact", "files nested in subdirectories of .kismet_temp that are older than the limit may or may not be removed (not demanded); younger ones must survive", "oracle for the key-named population: DirExplainer + clock-queue predicate"],
+    },
+    CheckDef {
+        id: "C16",
+        level: "exploration",
+        workers: 16,
+        rule: "proptest grammar of names (1-4 segments from {alnum, '.', '..', empty, unicode, 255/256-byte, .kismet_temp, .kismet_0000, names of sentinel files and directories, backslash, NUL, space, '-rf'} joined by '/', optional reserved first byte, optional trailing '/', '/.', '/..') x {get, touch, set, put, set_temp_file, put_temp_file, ensure, get_or_update x3} x {plain, sharded, stacked plain/sharded writer + reader, stacked without writer, read-only} x {capacity 1, huge}, inside a sentinel tree (outside file, sibling cache, nested subdirectory, dot files, young and stale temp files) with the trigger scripted to fire; non-trivial = the name has a feature beyond [A-Za-z0-9_-]+; distinct by hash of the case",
+        run: kvlib::c16::run,
+        replay: kvlib::c16::replay,
+        assumptions: &["mutating calls are observed through libc interposition; the sentinel tree is compared by recursive snapshot (everything but atime)", "read-only probes (stat/open O_RDONLY) outside the entry's place are not flagged"],
     }]
 }
 
@@ -53,6 +71,10 @@ fn verif_root() -> std::path::PathBuf {
     let exe = std::env::current_exe().unwrap();
     // /verif/harness/target/release/kv -> /verif
     exe.ancestors().nth(4).map(|p| p.to_path_buf()).unwrap_or_else(|| "/verif".into())
+}
+
+fn exe_path() -> std::path::PathBuf {
+    std::env::current_exe().unwrap()
 }
 
 fn main() {
@@ -121,6 +143,28 @@ fn orchestrate(id: &str, tier: &str) -> i32 {
     let exe = std::env::current_exe().unwrap();
     let n = std::env::var("VERIF_WORKERS").ok().and_then(|s| s.parse().ok()).unwrap_or(def.workers);
     let limit = Duration::from_secs(std::env::var("VERIF_TIMEOUT_S").ok().and_then(|s| s.parse().ok()).unwrap_or(if tier == "thorough" { 3 * 3600 } else { 1500 }));
+    // permanent regression replays (shrunk cases of earlier findings) run first, in every tier
+    let mut regress_violations: Vec<Violation> = Vec::new();
+    let mut regress_run = 0u64;
+    if let Ok(rd) = std::fs::read_dir(root.join("regress")) {
+        let mut files: Vec<_> = rd.flatten().map(|e| e.path()).filter(|p| p.file_name().map(|f| f.to_string_lossy().starts_with(&format!("{}-", id))).unwrap_or(false)).collect();
+        files.sort();
+        for f in files {
+            regress_run += 1;
+            let out = Command::new(&exe_path()).args(["replay", &f.to_string_lossy()]).output();
+            if let Ok(out) = out {
+                if out.status.code() == Some(1) {
+                    let text = String::from_utf8_lossy(&out.stdout).to_string();
+                    let body: serde_json::Value = std::fs::read_to_string(&f).ok().and_then(|s| serde_json::from_str(&s).ok()).unwrap_or(json!({}));
+                    regress_violations.push(Violation {
+                        signature: body["signature"].as_str().unwrap_or("regression").to_string(),
+                        detail: format!("regression replay {} fails again: {}", f.display(), text.lines().next().unwrap_or("")),
+                        replay: body["case"].clone(),
+                    });
+                }
+            }
+        }
+    }
     let mut children = Vec::new();
     for i in 0..n {
         let child = Command::new(&exe)
@@ -172,6 +216,8 @@ fn orchestrate(id: &str, tier: &str) -> i32 {
         }
     }
     infra.extend(merged.inconclusive.iter().cloned());
+    merged.violations.extend(regress_violations);
+    merged.extra.insert("regression_replays_run".into(), json!(regress_run));
 
     // known findings
     let known: serde_json::Value = std::fs::read_to_string(root.join("known_findings.json")).ok().and_then(|s| serde_json::from_str(&s).ok()).unwrap_or(json!({"findings": []}));
